@@ -168,27 +168,28 @@ Proof. split; vm_compute; reflexivity. Qed.
 Definition w_typed_tail : itree :=
   (INode [82]%N (@nil (str * str)) (@nil (option str * str)) [115;101;101;32]%N [(INode [110;108]%N (@nil (str * str)) (@nil (option str * str)) [99;102;46;32]%N [(INode [99]%N (@nil (str * str)) (@nil (option str * str)) (@nil N) (@nil itree) (@nil N))] [32;102;111;114;32;100;101;116;97;105;108;115]%N)] (@nil N)).
 
-(* <R><ns>t<a/></ns>u</R> *)
+(* <R><ns>t<a/>v</ns>u</R> *)
 Definition w_single_tail : itree :=
-  (INode [82]%N (@nil (str * str)) (@nil (option str * str)) (@nil N) [(INode [110;115]%N (@nil (str * str)) (@nil (option str * str)) [116]%N [(INode [97]%N (@nil (str * str)) (@nil (option str * str)) (@nil N) (@nil itree) (@nil N))] [117]%N)] (@nil N)).
+  (INode [82]%N (@nil (str * str)) (@nil (option str * str)) (@nil N) [(INode [110;115]%N (@nil (str * str)) (@nil (option str * str)) [116]%N [(INode [97]%N (@nil (str * str)) (@nil (option str * str)) (@nil N) (@nil itree) [118]%N)] [117]%N)] (@nil N)).
 
-(* <R>see <nl>cf. <c/></nl> for details<nm>x<nl/><na k="1"><b/>w</na></nm>z<ns>t<a/>v</ns>u</R> *)
+(* <R>see <nl>cf. <c/></nl> for details<nm>x<nl/><na k="1"><b/>w</na></nm>z<ns>t<a/>v</ns> </R> *)
 Definition w_nested_ok : itree :=
-  (INode [82]%N (@nil (str * str)) (@nil (option str * str)) [115;101;101;32]%N [(INode [110;108]%N (@nil (str * str)) (@nil (option str * str)) [99;102;46;32]%N [(INode [99]%N (@nil (str * str)) (@nil (option str * str)) (@nil N) (@nil itree) (@nil N))] [32;102;111;114;32;100;101;116;97;105;108;115]%N); (INode [110;109]%N (@nil (str * str)) (@nil (option str * str)) [120]%N [(INode [110;108]%N (@nil (str * str)) (@nil (option str * str)) (@nil N) (@nil itree) (@nil N)); (INode [110;97]%N [([107]%N, [49]%N)] (@nil (option str * str)) (@nil N) [(INode [98]%N (@nil (str * str)) (@nil (option str * str)) (@nil N) (@nil itree) [119]%N)] (@nil N))] [122]%N); (INode [110;115]%N (@nil (str * str)) (@nil (option str * str)) [116]%N [(INode [97]%N (@nil (str * str)) (@nil (option str * str)) (@nil N) (@nil itree) [118]%N)] [117]%N)] (@nil N)).
+  (INode [82]%N (@nil (str * str)) (@nil (option str * str)) [115;101;101;32]%N [(INode [110;108]%N (@nil (str * str)) (@nil (option str * str)) [99;102;46;32]%N [(INode [99]%N (@nil (str * str)) (@nil (option str * str)) (@nil N) (@nil itree) (@nil N))] [32;102;111;114;32;100;101;116;97;105;108;115]%N); (INode [110;109]%N (@nil (str * str)) (@nil (option str * str)) [120]%N [(INode [110;108]%N (@nil (str * str)) (@nil (option str * str)) (@nil N) (@nil itree) (@nil N)); (INode [110;97]%N [([107]%N, [49]%N)] (@nil (option str * str)) (@nil N) [(INode [98]%N (@nil (str * str)) (@nil (option str * str)) (@nil N) (@nil itree) [119]%N)] (@nil N))] [122]%N); (INode [110;115]%N (@nil (str * str)) (@nil (option str * str)) [116]%N [(INode [97]%N (@nil (str * str)) (@nil (option str * str)) (@nil N) (@nil itree) [118]%N)] [32]%N)] (@nil N)).
 
-(* a typed child followed by text inside a non-mixed holder: find_children(None) *)
+(* a typed child followed by text inside a non-mixed holder: the tail entry finds no
+   field ("Unassigned parsed object None") and the text is lost; a mixed holder keeps it *)
 Lemma typed_child_tail_refuted :
   exists t, g_wf [] t && guard_any [] t && guard_write [] t = true /\
             holder_written reg_w cfg_mixed full_oracle t = Some (canon [] t) /\
-            wild_parse reg_w cfg_list (pump full_oracle [] [] t) = Err ETypeError /\
-            wild_parse reg_w cfg_single (pump full_oracle [] [] t) = Err ETypeError.
+            holder_written reg_w cfg_list full_oracle t <> Some (canon [] t) /\
+            holder_written reg_w cfg_single full_oracle t <> Some (canon [] t).
 Proof.
   exists w_typed_tail. split; [vm_compute; reflexivity|]. split; [vm_compute; reflexivity|].
-  split; vm_compute; reflexivity.
+  split; vm_compute; discriminate.
 Qed.
 
 (* the tail of a single-wildcard holder is stored in its qname-less wrapper and
-   written before the end tag when the last child has no tail of its own *)
+   generated before the holder's end event: it is written inside the element *)
 Lemma single_holder_tail_refuted :
   exists t, g_wf [] t && guard_any [] t && guard_write [] t = true /\
             holder_roundtrip reg_w cfg_mixed full_oracle t <> Some (canon [] t) /\
@@ -197,9 +198,9 @@ Proof.
   exists w_single_tail. split; [vm_compute; reflexivity|]. split; vm_compute; discriminate.
 Qed.
 
-(* three nested holder classes (list, mixed with nested list and Attributes-map class,
-   single with text, a child tail and its own tail); read with the faithful writer: two
-   data events in a row mean "text, then tail of the element being written" *)
+(* three nested holder classes: list, mixed with a nested list and an Attributes-map
+   class, single with text and a child tail (its own tail blank) *)
 Example nested_holders_computed :
-  holder_written reg_w cfg_mixed full_oracle w_nested_ok = Some (canon [] w_nested_ok).
-Proof. vm_compute; reflexivity. Qed.
+  holder_written reg_w cfg_mixed full_oracle w_nested_ok = Some (norm_ws (canon [] w_nested_ok)) /\
+  holder_roundtrip reg_w cfg_mixed full_oracle w_nested_ok = Some (norm_ws (canon [] w_nested_ok)).
+Proof. split; vm_compute; reflexivity. Qed.
